@@ -191,7 +191,7 @@ static void gen_constructor(plan_t *p, rng_t *r, int slot, int isnew, int hard, 
 static void gen(plan_t *p, rng_t *r)
 {
     static unsigned char buf[20000];
-    int nops = rng_range(r, 4, 40), hard = rng_chance(r, 1, 6), big = rng_chance(r, 1, 5);
+    int nops = rng_range(r, 4, 40 * sim_tier_scale()), hard = rng_chance(r, 1, 6), big = rng_chance(r, 1, 5);
     memset(gexists, 0, sizeof(gexists)); memset(glen, 0, sizeof(glen)); memset(gdone, 0, sizeof(gdone));
     plan_knob(p, "cls", rng_chance(r, 1, 2));
     plan_knob(p, "viaclass", rng_chance(r, 1, 3));
